@@ -40,6 +40,17 @@ func newCache() *cache {
 	}
 }
 
+// removeNode drops the cached state, snapshot index and last entry batch of
+// the specified node, it is called when the node's data is removed.
+func (r *cache) removeNode(shardID uint64, replicaID uint64) {
+	key := raftio.NodeInfo{ShardID: shardID, ReplicaID: replicaID}
+	r.mu.Lock()
+	defer r.mu.Unlock()
+	delete(r.ps, key)
+	delete(r.snapshotIndex, key)
+	delete(r.lastEntryBatch, key)
+}
+
 func (r *cache) setNodeInfo(shardID uint64, replicaID uint64) bool {
 	key := raftio.NodeInfo{ShardID: shardID, ReplicaID: replicaID}
 	r.mu.Lock()
